@@ -51,7 +51,7 @@ def _run_one(pid, tier, seed, spec, workdir, idx, timeout):
     with open(shard_file, 'w') as f:
         json.dump(spec, f)
     env = dict(os.environ)
-    env.setdefault('PYTHONHASHSEED', '0')
+    env['PYTHONHASHSEED'] = str(spec.get('hashseed', os.environ.get('PYTHONHASHSEED', '0'))) if isinstance(spec, dict) else '0'
     env['PYTHONDONTWRITEBYTECODE'] = '1'
     env['VERIF_REPO'] = REPO
     cmd = [PY, os.path.join(VERIF_DIR, 'check'), '--worker', pid, '--tier', tier,
